@@ -128,6 +128,34 @@ T("C11_collect_single_in_place", """
     forall s o, In (s, o) items <-> (s = input /\\ o = input /\\ is_lua_path input = true)
 """, "collect_single_in_place")
 
+T("C11_stateless_run", """
+  forall (cfg st : Type) (xform : cfg -> path -> content -> fs -> option content * list path)
+         (sxform : st -> cfg -> path -> content -> fs -> (option content * list path) * st)
+         (ff : bool) (c : cfg),
+    stateless cfg st xform sxform ->
+    forall items f s,
+      fst (run_batch_st cfg st sxform ff c items f s) = run_batch cfg xform ff c items f
+""", "stateless_run")
+
+T("C11_earlier_state_irrelevant", """
+  forall (cfg st : Type) (xform : cfg -> path -> content -> fs -> option content * list path)
+         (sxform : st -> cfg -> path -> content -> fs -> (option content * list path) * st)
+         (ff : bool) (c : cfg) items f s s',
+    stateless cfg st xform sxform ->
+    fst (run_batch_st cfg st sxform ff c items f s) = fst (run_batch_st cfg st sxform ff c items f s')
+""", "earlier_state_irrelevant")
+
+T("C11_shared_cache_order_refuted", """
+  Permutation rc_items (rev rc_items) /\\
+  fs_get (fst (fst (run_batch_st N (option content) rc_sxform false 0 rc_items rc_fs None)))
+         ["out"; "nested"; "low.lua"]%string <>
+  fs_get (fst (fst (run_batch_st N (option content) rc_sxform false 0 (rev rc_items) rc_fs None)))
+         ["out"; "nested"; "low.lua"]%string /\\
+  fs_get (fst (fst (run_batch_st N (option content) rc_sxform false 0 rc_items rc_fs (Some [9]))))
+         ["out"; "top.lua"]%string <>
+  fs_get (fst (run_batch N rc_xform false 0 rc_items rc_fs)) ["out"; "top.lua"]%string
+""", "shared_cache_order_refuted")
+
 out = ['''(** C11 — Batch runs map files one-to-one, isolate failures and are deterministic.
     Only statements, closed by [exact], with their assumptions printed. *)
 From Coq Require Import Permutation.
